@@ -103,6 +103,17 @@ structure UnpackSt (σ : Type) where
   post : Bucket
   dirs : List RelPath
 
+/-- the uid / gid rules of `ApplyUnpackFilter` alone (what has been applied when `mtime=now` makes it return early) -/
+def applyUidGid (myUid myGid : Nat) (ff : UnpackFilter) (m : Meta) : Meta :=
+  let m := if ff.uid = ffContext then { m with uid := myUid } else if ff.uid ≠ ffKeep then { m with uid := toU32 ff.uid } else m
+  if ff.gid = ffContext then { m with gid := myGid } else if ff.gid ≠ ffKeep then { m with gid := toU32 ff.gid } else m
+
+/-- `filters.ApplyUnpackFilter(filt, &conjuredFmeta)` with its error dropped: the struct as far as it was mutated -/
+def conjFiltered (myUid myGid : Nat) (ff : UnpackFilter) (conj : Meta) : Meta :=
+  match applyUnpackFilter myUid myGid ff conj with
+  | .ok c => c
+  | _ => applyUidGid myUid myGid ff conj
+
 /-- conjure the implicit parents of `name` that are not yet known -/
 def conjureParents {σ : Type} (ops : FsOps σ) (myUid myGid : Nat) (filt : UnpackFilter) :
     List RelPath → UnpackSt σ → Outcome (UnpackSt σ)
@@ -112,19 +123,16 @@ def conjureParents {σ : Type} (ops : FsOps σ) (myUid myGid : Nat) (filt : Unpa
     else
       let conj := defaultDirMeta p
       let pre := st.pre.add conj []
-      -- the filter's result is used even when it reports an error (the code ignores it here)
-      match applyUnpackFilter myUid myGid filt conj with
-      | .panic w => .panic w
-      | .err _ =>
-        -- `filters.ApplyUnpackFilter(filt, &conjuredFmeta)` with its error dropped: the struct was
-        -- mutated up to the rejecting rule. A default dir (0755, no setid, not a device) is never rejected.
-        .panic "unreachable: default dir rejected"
-      | .ok conj' =>
-        let post := st.post.add conj' []
-        let (fs', e) := ops.place st.fs conj' [] true
-        match e with
-        | some _ => .err .inoperablePath
-        | none => conjureParents ops myUid myGid filt ps { fs := fs', pre := pre, post := post, dirs := p :: st.dirs }
+      -- `filters.ApplyUnpackFilter(filt, &conjuredFmeta)` with its error dropped: the struct is used as far as it
+      -- was mutated before the failing rule.  A default dir (0755, no setid bits, not a device) is never rejected,
+      -- so the only error is `mtime=now` (usage), raised after uid and gid were applied; the entry's own filter
+      -- application then fails with the same error.
+      let conj' := conjFiltered myUid myGid filt conj
+      let post := st.post.add conj' []
+      let (fs', e) := ops.place st.fs conj' [] true
+      match e with
+      | some _ => .err .inoperablePath
+      | none => conjureParents ops myUid myGid filt ps { fs := fs', pre := pre, post := post, dirs := p :: st.dirs }
 
 /-- one iteration of the entry loop of `unpackTar` -/
 def unpackEntry {σ : Type} (ops : FsOps σ) (myUid myGid : Nat) (filt : UnpackFilter) (h : TarHdr)
